@@ -122,6 +122,8 @@ class Norm:
             return self.norm(e[2], argmap, depth + 1)
         if k == "const":
             return ("const", e[1])
+        if k == "agg" and e[1] == "closure" and not e[4] and e[2] in F.bodies:
+            return ("fnval", e[2])  # a capture-free closure used as a value (coerced to a function pointer)
         if k == "addr":
             n = self.norm(e[1], argmap, depth + 1)
             if n[0] == "dataplace":
@@ -171,6 +173,13 @@ class Norm:
                 if o == ("offset_of", x):
                     return ("sub_off", x)
                 return ("opaque", "byte_sub(%s, %s)" % (x, o))
+            if path == "core::ops::function::FnOnce::call_once" and len(args) == 2 and not (len(e) > 6 and e[6]) and args[1][0] == "agg" and args[1][1] == "tuple":
+                # a call through a function pointer: the pointer's value, in normal form, is a closure body of this crate
+                fv = self.norm(args[0], argmap, depth + 1)
+                if fv[0] == "fnval" and fv[1] in F.bodies:
+                    am = {2 + i: self.norm(a, argmap, depth + 1) for i, a in enumerate(args[1][4])}
+                    return self.ret(fv[1], am, depth + 1, getattr(self, "_gmap", None))
+                return ("opaque", "%s(..)" % name)
             if path in ("core::ops::function::FnOnce::call_once", "core::ops::function::FnMut::call_mut", "core::ops::function::Fn::call") and len(args) == 2 and len(e) > 6 and e[6]:
                 # calling a callable of generic type: if the call site supplied a capture-free closure / fn item, inline it
                 ft = F.ty(F.strip_refs(e[6][0]))
